@@ -145,6 +145,34 @@ theorem C04_escape_quoted (q : Byte) (hq : q = 34 ∨ q = 39) (s rest : Bytes) :
 example : writeEscapeStr [] = [34, 34] ∧ writeEscapeStr [49, 50, 51] = [34, 49, 50, 51, 34]
     ∧ writeEscapeStr [97, 34] = [39, 97, 34, 39] ∧ writeEscapeStr [97] = [97] := by decide
 
+/-- the two quoting branches, explicitly: a string that needs quoting is printed between `'` when it holds strictly
+more `"` than `'`, otherwise between `"`; in BOTH branches the chosen quote and the backslash are escaped in a single
+pass over the string (`escapeWith`: each byte is looked at once — a backslash produced for a quote is never
+escaped again, unlike two nested `strings.ReplaceAll`), and `parseLiteral` reads the token back as `s` -/
+theorem C04_escape_branches (fo : FloatOracle) (s : Bytes) (hq : needQuote s = true) :
+    (countByte 34 s > countByte 39 s →
+        writeEscapeStr s = [39] ++ escapeWith 39 s ++ [39] ∧
+        parseLiteral fo ([39] ++ escapeWith 39 s ++ [39]) = .ok (tagString, some (.str s))) ∧
+    (¬ countByte 34 s > countByte 39 s →
+        writeEscapeStr s = [34] ++ escapeWith 34 s ++ [34] ∧
+        parseLiteral fo ([34] ++ escapeWith 34 s ++ [34]) = .ok (tagString, some (.str s))) := by
+  have hw := parseLiteral_writeEscapeStr fo s
+  constructor
+  · intro h
+    have e : writeEscapeStr s = [39] ++ escapeWith 39 s ++ [39] := by
+      unfold writeEscapeStr
+      rw [if_neg (by simp [hq]), if_pos h]
+    exact ⟨e, by rw [← e]; exact hw⟩
+  · intro h
+    have e : writeEscapeStr s = [34] ++ escapeWith 34 s ++ [34] := by
+      unfold writeEscapeStr
+      rw [if_neg (by simp [hq]), if_neg h]
+    exact ⟨e, by rw [← e]; exact hw⟩
+
+/-- `say "it's"` (more `"` than `'`, a `'` inside): printed as `'say "it\'s"'` — one backslash before the `'` -/
+example : writeEscapeStr [115, 97, 121, 32, 34, 105, 116, 39, 115, 34] =
+    [39, 115, 97, 121, 32, 34, 105, 116, 92, 39, 115, 34, 39] := by decide
+
 /-! ### the binary → text walker (C03 clause) -/
 
 /-- `StringifiedMessage.UnmarshalNBT` on ANY tag and ANY source: a value or an error, never a panic; and the walk
